@@ -26,6 +26,17 @@ def handleChunk (op : String) (j : Json) : Except String Json := do
     match chunkAll p h pieces with
     | some cs => pure (Json.mkObj [("chunks", natArr (cs.map List.length)), ("greedy", g)])
     | none => pure (Json.mkObj [("oob", Json.bool true), ("greedy", g)])
+  | "chunk.reuse" =>
+    -- C10: pieces handed over through reused buffers: `now` / `later` contents per piece (see `Replicat.Handed`)
+    let (p, h) ← chunkParams j
+    let now ← (← getArr j "now").toList.mapM (fun x => do unhex (← x.getStr?))
+    let later ← (← getArr j "later").toList.mapM (fun x => do unhex (← x.getStr?))
+    if now.length ≠ later.length then throw "now / later differ in length"
+    let hs := (now.zip later).map (fun x => (⟨x.1, x.2⟩ : Handed))
+    match chunkAllHanded p h hs with
+    | some cs => pure (Json.mkObj [("chunks", natArr (cs.map List.length)), ("data", Json.str (hex cs.flatten)),
+        ("copyFirst", Json.bool Gen.adapterCopiesBeforePull)])
+    | none => pure (Json.mkObj [("oob", Json.bool true), ("copyFirst", Json.bool Gen.adapterCopiesBeforePull)])
   | "chunk.sync" =>
     -- C11 observable of two streams P₁ ++ X (pieces `a`, |P₁| = pa) and P₂ ++ X (pieces `b`, |P₂| = pb)
     let (p, h) ← chunkParams j
